@@ -72,13 +72,13 @@ def confirm_crashes(ck, exe_asan, wd, trace):
         else:
             out_lines.append(line)
     confirmed = []
-    for ev in crash_cases[:12]:      # (each re-run may cost its watchdog: a dozen attributed crashes are enough to report)
+    for ev in crash_cases[:6]:       # (each re-run may cost its watchdog: a handful of attributed crashes is enough to report)
         c = ev["case"]
         one = os.path.join(wd, "confirm.ndjson")
         cfgf = os.path.join(wd, "confirm.cfg.ndjson")
         open(cfgf, "w").write(json.dumps({"type": c["type"], "ver": c["ver"], "mode": c["mode"], "boost": c.get("boost", -1), "ov": c.get("ov", [])}) + "\n")
         try:
-            rc, out, err = vlib.run_harness(exe_asan, ["c01-run", cfgf, one], env={"VERIF_SEED": str(c.get("seed", vlib.SEED))}, timeout=120)
+            rc, out, err = vlib.run_harness(exe_asan, ["c01-run", cfgf, one], env={"VERIF_SEED": str(c.get("seed", vlib.SEED))}, timeout=45)
             again = [json.loads(l) for l in open(one)] if rc == 0 and os.path.exists(one) else [{"e": "crash"}]
         except vlib.InfraError:
             again = [{"e": "crash"}]     # the re-run itself hung: the crash record stands
